@@ -66,6 +66,9 @@ ASSUMPTIONS = [
     "harness-made scheduling point before every check() of either class; those traces are SIMULATED by the extended "
     "machine (vrun: VerifyDrop = post-add check removes a mismatching file and reports the id failed) - outcome "
     "incl. the failed set compared in Coq - not covered by the legality-based soundness theorem",
+    "re-staging stream: the staleness of the state cache proper is C13's model; here writers re-stage files rewritten "
+    "in place (same size, same inode) with the modification time set explicitly to another fraction of the same "
+    "whole second - no wall-clock dependence; only the manifest oracle judges it",
     "hashing INSIDE one writer (build's thread pool for large files, imap_unordered) is C03's model (HashSched); "
     "here it is only exercised, not modelled: a share of the scheduled and free-running runs lowers the large-file "
     "threshold to 0 (patched from the harness as c03.py does), uses checksum_jobs in {None,2,4} and delays the read "
@@ -397,6 +400,7 @@ def gen_schedule(rng, n, length=400):
 _STATE: dict = {}
 _STATS: dict = {}
 _POOL: dict = {}
+_RESTAGE: dict = {}  # workspace path -> {"files": {rel: new bytes of the same size}, "ns": mtime to set}
 
 
 def pool_delays(root, wkls, pool):
@@ -448,7 +452,20 @@ def _writer_body(cls, store, ws, st, verify=None):
     kw = {"checksum_jobs": cfg["jobs"]} if cfg is not None else {}
     staging, _meta, obj = build(odb, ws, localfs, "md5", **kw)
     res = transfer(staging, odb, {obj.hash_info}, shallow=False, **({"verify": True} if verify == "call" else {}))
-    return obj.oid, sorted(h.value for h in res.failed)
+    failed = sorted(h.value for h in res.failed)
+    rs = _RESTAGE.get(ws)
+    if rs:
+        # re-stage after rewriting files IN PLACE with other contents of the SAME size; the modification time is
+        # set explicitly (no wall clock involved): same whole second as before, another fraction
+        for rel, data in rs["files"].items():
+            p = os.path.join(ws, *rel.split("/"))
+            with open(p, "r+b") as f:
+                f.write(data)
+            os.utime(p, ns=(rs["ns"], rs["ns"]))
+        staging, _meta, obj = build(odb, ws, localfs, "md5", **kw)
+        res = transfer(staging, odb, {obj.hash_info}, shallow=False)
+        failed += sorted(h.value for h in res.failed)
+    return obj.oid, failed
 
 
 def _thread_main(s: Sched, tid, cls, store, ws, st, results, verify=None):
@@ -466,7 +483,7 @@ def _thread_main(s: Sched, tid, cls, store, ws, st, results, verify=None):
 
 
 def run_threads(ctx, cls, wkls, schedule, prepop=None, free=False, shared_state=True, _root=None, pool=None,
-                verify=None):
+                verify=None, restage=None):
     """returns dict(trace, grants, results, store, rows, leftovers, root)"""
     global _S
     from dvc_data.hashfile.state import State
@@ -477,6 +494,19 @@ def run_threads(ctx, cls, wkls, schedule, prepop=None, free=False, shared_state=
     n = len(wkls)
     for i, wl in enumerate(wkls):
         impl.mk_tree(os.path.join(root, f"w{i}"), wl)
+    _RESTAGE.clear()
+    if restage:
+        # restage[i] = second version of writer i's tree (same names, same sizes).  Explicit clock: first
+        # version at T + 0.25 s, second at T + 0.75 s, T a whole second in the past
+        t0 = (int(time.time()) - 100) * 10**9
+        for i, wl in enumerate(wkls):
+            ws = os.path.join(root, f"w{i}")
+            for rel in wl:
+                p = os.path.join(ws, *rel.split("/"))
+                os.utime(p, ns=(t0 + 250_000_000, t0 + 250_000_000))
+            changed = {rel: b for rel, b in restage[i].items() if b != wl[rel]}
+            assert all(len(b) == len(wl[rel]) for rel, b in changed.items())
+            _RESTAGE[ws] = {"files": changed, "ns": t0 + 750_000_000}
     if prepop:
         for oid, data in prepop.items():
             impl.plant(store, oid, data, mode=0o444 if cls == "local" else None)
@@ -522,6 +552,7 @@ def run_threads(ctx, cls, wkls, schedule, prepop=None, free=False, shared_state=
         s.on = False
         _S = None
         _POOL.pop("cfg", None)
+        _RESTAGE.clear()
     if not shared_state:
         for x in states:
             x.close()
@@ -594,8 +625,9 @@ def audit_rows(st_dir, store):
     return out, integrity
 
 
-def judge(cls, wkls, run, prepop=None):
-    """oracle: the property on the real outcome.  returns [(signature, what)]"""
+def judge(cls, wkls, run, prepop=None, earlier=None):
+    """oracle: the property on the real outcome.  returns [(signature, what)].
+    earlier[i] = an earlier version of writer i's tree that it staged too (its objects are requested as well)"""
     problems = []
     n = len(wkls)
     if run.get("aborted"):
@@ -615,6 +647,8 @@ def judge(cls, wkls, run, prepop=None):
         r = run["results"].get(i)
         if r and r[0] == "ok" and r[1] != doid:
             problems.append(("C16:directory-id", f"writer {i} staged {r[1]}, its tree is {doid}"))
+        if earlier:
+            man = {**manifest(earlier[i]), **man}
         for oid, data in man.items():
             want[oid] = data
             got = objs.get(oid)
@@ -963,7 +997,10 @@ def run(ctx):
         # same, but writer 0's remove (second half of its check) is granted only after writer 1 re-created the
         # object: the complete object is deleted and stays absent
         g_lost = [int(c) for c in "11000000000000111011111101111111"]
-        for cls, g in (("base", g_base), ("local", g_local), ("base", g_lost)):
+        # writer 0's post-add verification runs while the object is ABSENT (after writer 1's probe unlink, before
+        # its re-creation): add() swallows the FileNotFoundError - writer 0 succeeds, nothing is dropped
+        g_absent = [int(c) for c in "11000000000000111100000000111111111111"]
+        for cls, g in (("base", g_base), ("local", g_local), ("base", g_lost), ("base", g_absent)):
             out = scheduled_case(ctx, cls, two, g, "corpus-verify", verify=["call", None])
             _register(ctx, out, cases, seen_sched, unknown_total)
     while len(seen_sched) < n_sched and time.time() - t_start < budget:
@@ -1217,6 +1254,30 @@ def stress(ctx):
         for sig, what in problems:
             ctx.oracle_fail(sig, what, case)
         impl.rm_rf(run_["root"])
+    # re-staging against the shared State: every writer stages its tree, rewrites some files in place with other
+    # contents of the same size and a modification time in the same whole second, and stages again
+    for _r in range(ctx.n(2, 16)):
+        cls = rng.choice(["local", "base"])
+        n = rng.choice([2, 3, 4])
+        v1 = gen_pool_workloads(rng, n)
+        v2 = []
+        for wl in v1:
+            w2 = dict(wl)
+            for rel in rng.sample(sorted(wl), rng.randint(1, len(wl))):
+                b = wl[rel]
+                w2[rel] = bytes([b[0] ^ 1]) + b[1:-1] + bytes([(b[-1] + 1 + rng.randrange(3)) % 256])
+            v2.append(w2)
+        free = _r % 2 == 0
+        schedule = [] if free else gen_schedule(rng, n, 200 * n)[1]
+        run_ = run_threads(ctx, cls, v1, schedule, free=free, restage=v2)
+        problems, *_ = judge(cls, v2, run_, earlier=v1)
+        case = {"cls": cls, "workloads": hexwl(v1), "restage": hexwl(v2), "mode": "restage",
+                "schedule": run_["grants"], "free": free}
+        ctx.case(case, True)
+        ctx.count("restage:" + ("free-threads" if free else "scheduled"))
+        for sig, what in problems:
+            ctx.oracle_fail(sig, what, case)
+        impl.rm_rf(run_["root"])
     for _r in range(rounds_p):
         cls = rng.choice(["local", "base"])
         n = rng.choice([3, 4]) if ctx.tier == "quick" else rng.choice([4, 6])
@@ -1291,6 +1352,12 @@ def replay_case(ctx, case):
         run_ = run_processes(ctx, cls, wkls, rounds=2, pool=case.get("pool"))
     elif case.get("mode") == "nonroot":
         return nonroot_case(ctx, case)
+    elif case.get("mode") == "restage":
+        v2 = unhexwl(case["restage"])
+        run_ = run_threads(ctx, cls, wkls, case.get("schedule", []), free=case.get("free", False), restage=v2)
+        problems, objs, leftovers, rows = judge(cls, v2, run_, earlier=wkls)
+        return {"results": {str(k): v for k, v in run_["results"].items()}, "problems": problems,
+                "violates": bool(problems)}
     else:
         prepop = {k: bytes.fromhex(v) for k, v in case.get("prepop", {}).items()} or None
         run_ = run_threads(ctx, cls, wkls, case.get("schedule", []), prepop=prepop, pool=case.get("pool"),
